@@ -196,6 +196,12 @@ def register(PROPS):
                         "the inventory of construction routes is the one read off message_fields.go, message.go and session.go"],
     }
     def cmp_c19(case, go, m, s):
+        # an ID or type that aliases a buffer its caller reuses is shared state between a message, its clones and its
+        # published copies: the construction routes are run here as well (their own property is C14)
+        if case.startswith(("UT ", "GUT ")):
+            return cmp_c15(case, go, m, s)
+        if case.startswith("FLD "):
+            return cmp_c14(case, go, m, s)
         # Joe scenarios: the caller's message after Publish (whatever the replayer answered) must be what it was before
         if case.startswith("JOE "):
             corr = m == "accept"
@@ -207,6 +213,8 @@ def register(PROPS):
         return go == m, go == s
 
     def hist_c19_all(case, go):
+        if case.startswith(("FLD ", "UT ", "GUT ")):
+            return ["op:" + " ".join(case.split(" ")[:2 if case.startswith("FLD ") else 1])]
         if case.startswith(("FINITE ", "VALID ")):
             n = sum(int(o.split(":")[2]) for o in case.split(" ")[-1].split(";") if o.startswith("N:"))
             return ["op:LONG", "long:" + ("<2049" if n < 2049 else "<4097" if n < 4097 else "<65537" if n < 65537 else "65537+")]
@@ -215,7 +223,8 @@ def register(PROPS):
     PROPS["C19"] = {
         "gens": [{"id": "C19", "quick": 15000, "thorough": 500000, "thorough_seeds": 12},
                  {"id": "C17", "quick": 1200, "thorough": 30000, "thorough_seeds": 6},
-                 {"id": "C19L", "quick": 8, "thorough": 60, "thorough_seeds": 6}],
+                 {"id": "C19L", "quick": 8, "thorough": 60, "thorough_seeds": 6},
+                 {"id": "C14", "quick": 4000, "thorough": 100000, "thorough_seeds": 6}],
         "compare": cmp_c19,
         "on_crash": "correspondence",
         "replay_repeats": 50,
